@@ -220,7 +220,7 @@ func (e *Env) RunSim(cfg sim.Config, root func()) sim.Outcome {
 	if o.Counters == nil {
 		o.Counters = map[string]int{}
 	}
-	for k, v := range out.Counters {
+	for k, v := range detRange(out.Counters) {
 		o.Counters[k] += v
 	}
 	for _, c := range out.Crashes {
@@ -299,7 +299,7 @@ func deadlockSig(d string) string {
 		}
 	}
 	var sites []string
-	for s := range set {
+	for s := range detRange(set) {
 		sites = append(sites, s)
 	}
 	sort.Strings(sites)
@@ -450,7 +450,14 @@ func workerReplay(t *testing.T) {
 		emit(map[string]any{"infra": "cannot read replay: " + err.Error()})
 		return
 	}
+	if f := os.Getenv("SIM_TRACE"); f != "" { // debugging aid: dump the complete event trace of the replayed run
+		sim.TraceAll = true
+		sim.FullTrace = nil
+	}
 	res := RunSpec(t, rf.Spec)
+	if f := os.Getenv("SIM_TRACE"); f != "" {
+		os.WriteFile(f, []byte(strings.Join(sim.FullTrace, "\n")), 0644)
+	}
 	same := sameViolation(res.Violations, rf.Violations)
 	exact := same && res.Outcome.TraceHash == rf.TraceHash
 	emit(map[string]any{"result": res, "reproduced": same, "exact": exact, "expected_trace": rf.TraceHash})
